@@ -3,6 +3,7 @@ import Grass.Generated.CssColorsRef
 import GrassProofs.Lemmas.ColorNum
 import GrassProofs.Lemmas.ColorConv
 import GrassProofs.Lemmas.ColorRoundTrip
+import GrassProofs.Lemmas.ColorHwb
 /-
   C15 — Colours keep channels in range and agree across spellings and colour spaces.
 
@@ -697,6 +698,239 @@ theorem C15_complement_complement (c : Color) (hw : c.wf = true) (hc : hslConsis
   exact sameColor_of_chan hw (s1.trans a) (s2.trans b) (s3.trans d) (s4.trans e)
 
 example : sameColor (complement (complement (newRgba 18 52 87 1 .infer))) (newRgba 18 52 87 1 .infer) = true := by
+  decide +kernel
+
+/-- every constructor produces a colour whose stored HSL (if any) is the one it was built from -/
+theorem hslConsistent_constructors (r g b a : Rat) (f : Fmt) (n1 n2 n3 n4 : Nat) (t : String) :
+    hslConsistent (newRgba r g b a f) ∧ hslConsistent (newNamed n1 n2 n3 n4 t) ∧ hslConsistent (fromRgba r g b a) ∧
+    hslConsistent (fromRgbaFn r g b a) ∧ hslConsistent (fromHwb r g b a) ∧ hslConsistent (fromHsla r g b a) ∧
+    hslConsistent (fromHslaFn r g b a) := by
+  refine ⟨trivial, trivial, trivial, trivial, ?_, fromHsla_consistent _ _ _ _, ?_⟩
+  · unfold fromHwb
+    generalize hwbToRgbExact r g b = t
+    obtain ⟨x, y, z⟩ := t
+    trivial
+  · have := fromHsla_consistent r g b a
+    unfold hslConsistent at this ⊢
+    unfold fromHslaFn
+    exact this
+
+/-! ## 10. Hex forms, names, rgb() -/
+
+/-- #rgb = #rrggbb, #rgba = #rrggbbaa, #rgbf = #rgb: same colour (`==` and compressed print). -/
+theorem C15_hex_forms_agree (d1 d2 d3 d4 : Nat) (t t' : String) (c c' : Color) :
+    (ofHexDigits [d1, d2, d3] t = some c → ofHexDigits [d1, d1, d2, d2, d3, d3] t' = some c' → sameColor c c' = true) ∧
+    (ofHexDigits [d1, d2, d3, d4] t = some c → ofHexDigits [d1, d1, d2, d2, d3, d3, d4, d4] t' = some c' → sameColor c c' = true) ∧
+    (ofHexDigits [d1, d2, d3, 15] t = some c → ofHexDigits [d1, d2, d3] t' = some c' → sameColor c c' = true) ∧
+    (ofHexDigits [d1, d1, d2, d2, d3, d3, 15, 15] t = some c → ofHexDigits [d1, d2, d3] t' = some c' → sameColor c c' = true) := by
+  refine ⟨?_, ?_, ?_, ?_⟩
+  all_goals
+    intro h1 h2
+    simp only [ofHexDigits, Option.some.injEq] at h1 h2
+    subst h1 h2
+    apply C15_spellings_equal_and_print_same <;> simp [newRgba, Color.alpha] <;> decide +kernel
+
+example : (ofHexDigits [10, 11, 12] "#abc").isSome ∧ (ofHexDigits [10, 10, 11, 11, 12, 12] "#aabbcc").isSome := by decide
+
+/-- A named colour, the hex literal of its table value and rgb() of the same channels are the same
+    colour; with `C15_named_table_eq_css` the value is the CSS one. -/
+theorem C15_name_hex_rgb_agree (r g b : Nat) (hr : r ≤ 255) (hg : g ≤ 255) (hb : b ≤ 255) (t t' : String) (c : Color)
+    (h : fnRgb ((r : Rat), "") ((g : Rat), "") ((b : Rat), "") none = .ok c) :
+    sameColor (newNamed r g b 255 t) (newRgba r g b 1 (.literal t')) = true ∧
+    sameColor (newRgba r g b 1 (.literal t')) c = true := by
+  constructor
+  · apply C15_spellings_equal_and_print_same <;> simp [newNamed, newRgba, Color.alpha] <;> decide +kernel
+  · have cr := chanOk_natCast hr; have cg := chanOk_natCast hg; have cb := chanOk_natCast hb
+    have e : c = fromRgbaFn (r : Rat) (g : Rat) (b : Rat) 1 := by
+      simp [fnRgb, pctOrUnitless, clamp_chanOk cr, clamp_chanOk cg, clamp_chanOk cb,
+        fuzzyRound_of_isInt (isInt_natCast _)] at h
+      exact h.symm
+    subst e
+    have one : clamp 1 0 1 = 1 := by decide +kernel
+    apply C15_spellings_equal_and_print_same <;>
+      simp [fromRgbaFn, newRgba, Color.alpha, clamp_chanOk cr, clamp_chanOk cg, clamp_chanOk cb, one]
+
+example : (fnRgb (255, "") (0, "") (0, "") none).toOption.isSome = true := by decide +kernel
+
+/-! ### Round trips through the accessors: hsl(hue, saturation, lightness) and hwb(hue, whiteness, blackness) -/
+
+/-- The accessors of an 8-bit RGB colour (no stored HSL) in terms of the exact conversions. -/
+theorem accessors_eq (r g b : Nat) :
+    let c := newRgba (r : Rat) (g : Rat) (b : Rat) 1 .infer
+    let x := (r : Rat) / 255; let y := (g : Rat) / 255; let z := (b : Rat) / 255
+    c.hue = hueE x y z ∧ c.saturation / 100 = (rgbToHslE x y z).2.1 ∧ c.lightness false / 100 = (rgbToHslE x y z).2.2 ∧
+    c.whiteness * 100 = min3 x y z * 100 ∧ c.blackness * 100 = (1 - max3 x y z) * 100 := by
+  intro c x y z
+  have er : c.red = (r : Rat) := roundQ_of_isInt (isInt_natCast r)
+  have eg : c.green = (g : Rat) := roundQ_of_isInt (isInt_natCast g)
+  have eb : c.blue = (b : Rat) := roundQ_of_isInt (isInt_natCast b)
+  have hn : c.hsl = none := rfl
+  have hs := sep_of_nat r g b
+  have F := minmax_facts x y z
+  have ⟨w1, w2⟩ := nmin_assoc_div (r : Rat) (g : Rat) (b : Rat)
+  simp only [Color.hue, Color.saturation, Color.lightness, Color.whiteness, Color.blackness, hn, er, eg, eb,
+    hueE, rgbToHslE, w1, w2, Bool.false_eq_true, if_false]
+  show _ ∧ _ ∧ _ ∧ _ ∧ _
+  generalize hmn : min3 x y z = mn at F ⊢
+  generalize hmx : max3 x y z = mx at F ⊢
+  obtain ⟨f1, f2, f3, f4, f5, f6, f7, f8⟩ := F
+  have e1 : fuzzyEq mn mx = decide (mn = mx) := fuzzyEq_sep (hs mn mx (by grind) (by grind))
+  have e2 : fuzzyEq mx x = decide (mx = x) := fuzzyEq_sep (hs mx x (by grind) (by grind))
+  have e3 : fuzzyEq mx y = decide (mx = y) := fuzzyEq_sep (hs mx y (by grind) (by grind))
+  simp only [x, y, z] at e1 e2 e3 hmn hmx
+  simp only [e1, e2, e3, decide_eq_true_eq]
+  refine ⟨?_, ?_, ?_, ?_, ?_⟩
+  all_goals first | trivial | rfl | grind | (split <;> grind)
+
+theorem scaled_back (n : Nat) : (n : Rat) / 255 * 255 = (n : Rat) := by grind
+
+/-- **rgb → hwb → rgb, symbolic, all 2^24 colours**: color.hwb(hue(c), whiteness(c), blackness(c)) of an
+    8-bit RGB colour is that colour (`==` and compressed print). -/
+theorem C15_rgb_hwb_rgb_roundtrip (r g b : Nat) (hr : r ≤ 255) (hg : g ≤ 255) (hb : b ≤ 255) :
+    let c := newRgba (r : Rat) (g : Rat) (b : Rat) 1 .infer
+    sameColor (fromHwb c.hue (c.whiteness * 100) (c.blackness * 100) 1) c = true := by
+  intro c
+  have ⟨r0, r1⟩ := unit_of_nat hr
+  have ⟨g0, g1⟩ := unit_of_nat hg
+  have ⟨b0, b1⟩ := unit_of_nat hb
+  obtain ⟨e1, _, _, e4, e5⟩ := accessors_eq r g b
+  try simp only [] at e1 e4 e5
+  have rt := hwb_roundtripE r0 r1 g0 g1 b0 b1
+  have one : clamp 1 0 1 = 1 := by decide +kernel
+  have key : hwbToRgbExact c.hue (c.whiteness * 100) (c.blackness * 100) = ((r : Rat), (g : Rat), (b : Rat)) := by
+    show hwbToRgbExact (newRgba (r : Rat) (g : Rat) (b : Rat) 1 .infer).hue _ _ = _
+    rw [e1, e4, e5, rt]; simp only [scaled_back]
+  have F : fromHwb c.hue (c.whiteness * 100) (c.blackness * 100) 1 = c := by
+    simp only [fromHwb, key, one, fuzzyRound_of_isInt (isInt_natCast _)]
+    rfl
+  rw [F]
+  exact C15_spellings_equal_and_print_same rfl rfl rfl rfl (Or.inr rfl)
+
+example : (fromHwb (newRgba 18 52 87 1 .infer).hue ((newRgba 18 52 87 1 .infer).whiteness * 100)
+    ((newRgba 18 52 87 1 .infer).blackness * 100) 1).b = 87 := by decide +kernel
+
+/-- **hsl(hue(c), saturation(c), lightness(c)), symbolic, all 2^24 colours**: the accessor formulas
+    (color/mod.rs:227–297, textually different from `as_hsla`) round-trip every 8-bit RGB colour. -/
+theorem C15_hsl_accessors_roundtrip (r g b : Nat) (hr : r ≤ 255) (hg : g ≤ 255) (hb : b ≤ 255) :
+    let c := newRgba (r : Rat) (g : Rat) (b : Rat) 1 .infer
+    sameColor (fromHslaFn (sassMod c.hue 360) (c.saturation / 100) (c.lightness false / 100) 1) c = true := by
+  intro c
+  have ⟨r0, r1⟩ := unit_of_nat hr
+  have ⟨g0, g1⟩ := unit_of_nat hg
+  have ⟨b0, b1⟩ := unit_of_nat hb
+  obtain ⟨e1, e2, e3, _, _⟩ := accessors_eq r g b
+  try simp only [] at e1 e2 e3
+  have rt := roundtripE_acc r0 r1 g0 g1 b0 b1
+  have hb' : 0 ≤ hueE ((r : Rat) / 255) ((g : Rat) / 255) ((b : Rat) / 255) ∧
+      hueE ((r : Rat) / 255) ((g : Rat) / 255) ((b : Rat) / 255) < 360 := by
+    simp only [hueE]; exact sassMod_bounds _
+  have ⟨f1, f2, f3, f4, _⟩ := fromHsla_fields (sassMod c.hue 360) (c.saturation / 100) (c.lightness false / 100) 1
+  have key : hslToRgbExact (sassMod (sassMod c.hue 360) 360) (c.saturation / 100) (c.lightness false / 100) =
+      ((r : Rat), (g : Rat), (b : Rat)) := by
+    show hslToRgbExact (sassMod (sassMod (newRgba (r : Rat) (g : Rat) (b : Rat) 1 .infer).hue 360) 360) _ _ = _
+    rw [e1, e2, e3, sassMod_id hb'.1 hb'.2, sassMod_id hb'.1 hb'.2, rt]; simp only [scaled_back]
+  rw [key] at f1 f2 f3
+  simp only [fuzzyRound_of_isInt (isInt_natCast _)] at f1 f2 f3
+  exact C15_spellings_equal_and_print_same f1 f2 f3
+    (by show Color.alpha (fromHslaFn _ _ _ _) = Color.alpha c
+        have : (fromHslaFn (sassMod c.hue 360) (c.saturation / 100) (c.lightness false / 100) 1).a = 1 := f4
+        simp only [Color.alpha, this]; rfl)
+    (Or.inr f4)
+
+/-! ### change-color / adjust-color / scale-color -/
+
+/-- what `check_num` (other.rs:33) guarantees for an argument that is later used with `max = 1`:
+    change-color accepts [0,1], adjust-color and scale-color [-1,1] (after the division by 100 where it applies) -/
+def argOk (u : Upd) (v : Option Rat) : Prop :=
+  ∀ x, v = some x → (if u = .change then 0 ≤ x else -1 ≤ x) ∧ x ≤ 1
+
+theorem updateValue_unit {cur : Rat} {p : Option Rat} {u : Upd} (c0 : 0 ≤ cur) (c1 : cur ≤ 1) (hp : argOk u p) :
+    0 ≤ updateValue cur p 1 u ∧ updateValue cur p 1 u ≤ 1 := by
+  unfold updateValue
+  cases p with
+  | none => exact ⟨c0, c1⟩
+  | some x =>
+    have ⟨lo, hi⟩ := hp x rfl
+    cases u with
+    | change => simpa using ⟨lo, hi⟩
+    | adjust => exact clamp_bounds _ 0 1 (by decide +kernel)
+    | scale =>
+      simp only [] at lo ⊢
+      have lo' : -1 ≤ x := by simpa using lo
+      split
+      · rename_i hx
+        have a := Rat.mul_nonneg (a := 1 - cur) (b := x) (by grind) (by grind)
+        have b := Rat.mul_le_mul_of_nonneg_left (a := x) (b := 1) (c := 1 - cur) hi (by grind)
+        constructor <;> grind
+      · rename_i hx
+        have b := Rat.mul_le_mul_of_nonneg_left (a := -1) (b := x) (c := cur) lo' c0
+        have a := Rat.mul_le_mul_of_nonneg_left (a := x) (b := 0) (c := cur) (by grind) c0
+        constructor <;> grind
+
+theorem whiteness_blackness_unit {c : Color} (h : c.wf = true) :
+    (0 ≤ c.whiteness ∧ c.whiteness ≤ 1) ∧ (0 ≤ c.blackness ∧ c.blackness ≤ 1) := by
+  have ⟨cr, cg, cb⟩ := wf_chan h
+  have ⟨er, eg, eb⟩ := wf_red h
+  have ⟨_, r0, r1⟩ := chanOk_bounds cr
+  have ⟨_, g0, g1⟩ := chanOk_bounds cg
+  have ⟨_, b0, b1⟩ := chanOk_bounds cb
+  simp only [Color.whiteness, Color.blackness, er, eg, eb, nmin, nmax]
+  constructor <;> constructor <;> (repeat' split) <;> grind
+
+/-- change-color / adjust-color / scale-color: with arguments in the ranges `check_num` enforces, the
+    produced colour is in range (all four branches: RGB, HWB, HSL, alpha only). -/
+theorem C15_channels_in_range_update (u : Upd) (c d : Color) (p : UpdArgs) (hc : c.wf = true)
+    (ha : argOk u p.alpha) (hw : argOk u p.whiteness) (hb : argOk u p.blackness)
+    (h : updateComponents u c p = .ok d) : d.wf = true ∧ d.inRange = true := by
+  suffices d.wf = true from ⟨this, wf_inRange this⟩
+  have ⟨a0, a1⟩ := wf_alpha hc
+  have ⟨⟨w0, w1⟩, ⟨k0, k1⟩⟩ := whiteness_blackness_unit hc
+  unfold updateComponents updatePlan at h
+  simp only [] at h
+  split at h
+  · cases h
+  · split at h
+    · cases h
+    · split at h
+      · cases h
+        exact (fromRgba_wf _ (fuzzyRound_isInt _) (fuzzyRound_isInt _) (fuzzyRound_isInt _)).1
+      · split at h
+        · cases h
+          have ⟨x0, _⟩ := updateValue_unit w0 w1 hw
+          have ⟨y0, _⟩ := updateValue_unit k0 k1 hb
+          exact fromHwb_wf _ _ _ _ (by grind) (by grind)
+        · split at h
+          · have e := asHsla_alpha c
+            generalize c.asHsla = t at e h
+            obtain ⟨hh, s, l, a⟩ := t
+            simp only [] at e
+            subst e
+            cases h
+            have ⟨x0, x1⟩ := updateValue_unit a0 a1 ha
+            exact (fromHsla_wf _ _ _ _ x0 x1).1
+          · split at h
+            · cases h
+              exact (C15_channels_in_range_alpha_functions c _).1
+            · cases h
+              exact hc
+
+/-! ## 11. The variants found on the pinned tree violate the property (kernel-checked witnesses) -/
+
+/-- D21 as found: `mix(#000, #020202, 25%)` kept fractional channels (1.5): not in range, `red()` = 2,
+    yet not equal to #020202.  With the rounding now in /repo the same call is in range and equal. -/
+theorem C15_asFound_mix_unrounded :
+    let a := newRgba 0 0 0 1 .infer; let b := newRgba 2 2 2 1 .infer
+    (mix true a b (1/4)).inRange = false ∧ (mix true a b (1/4)).red = 2 ∧ (mix true a b (1/4)).eq b = false ∧
+    (mix false a b (1/4)).inRange = true ∧ (mix false a b (1/4)).eq b = true := by
+  decide +kernel
+
+/-- D14 as found: `lightness()` rounded to an integer, so hsl(hue(c), saturation(c), lightness(c)) of
+    #123457 was #123559; unrounded it is #123457 again. -/
+theorem C15_asFound_lightness_rounded :
+    let c := newRgba 18 52 87 1 .infer
+    let back (asFound : Bool) := fromHslaFn (sassMod c.hue 360) (c.saturation / 100) (c.lightness asFound / 100) 1
+    ((back true).r, (back true).g, (back true).b) = (18, 53, 89) ∧
+    ((back false).r, (back false).g, (back false).b) = (18, 52, 87) := by
   decide +kernel
 
 end Grass.Color
